@@ -40,7 +40,21 @@ type c17Case struct {
 var c17Scenarios = []string{
 	"noreg-discard-read", "noreg-setdeadline", "nomatch-read-first", "nomatch-read-later", "ranout-discard-read",
 	"found-upload-read", "found-upload-read-data+err", "found-download-write", "found-setdeadline", "found-close",
-	"found-proxyheader", "found-covert-refused",
+	"found-proxyheader", "found-covert-refused", "found-proxyheader-covert-reset",
+}
+
+// c17HookConn lets a scenario line something up with the RemoteAddr call Proxy makes between the
+// covert dial and the PROXY header write.
+type c17HookConn struct {
+	*vconn.Conn
+	hook func()
+}
+
+func (c c17HookConn) RemoteAddr() net.Addr {
+	if c.hook != nil {
+		c.hook()
+	}
+	return c.Conn.RemoteAddr()
 }
 
 type c17Capture struct {
@@ -152,7 +166,7 @@ func c17Run(e *aEnv, h *c17Hook, c c17Case) c17Out {
 			out.key, out.msg = "harness", err.Error()
 			return out
 		}
-		if c.Scenario == "found-proxyheader" {
+		if c.Scenario == "found-proxyheader" || c.Scenario == "found-proxyheader-covert-reset" {
 			reg.Flags = &pb.RegistrationFlags{ProxyHeader: boolPtr(true)}
 		}
 		e.rm.AddRegistration(reg)
@@ -188,7 +202,7 @@ func c17Run(e *aEnv, h *c17Hook, c c17Case) c17Out {
 	case "found-close":
 		s.Reads = []vconn.Step{{Data: vh.Hex(append(append([]byte(nil), flight...), aPayload(5, 20, "c17")...))}, {Err: c.Err2}}
 		s.CloseErr = c.Err
-	case "found-proxyheader", "found-covert-refused":
+	case "found-proxyheader", "found-covert-refused", "found-proxyheader-covert-reset":
 		s.Reads = []vconn.Step{{Data: vh.Hex(append(append([]byte(nil), flight...), aPayload(5, 20, "c17")...))}, {Err: c.Err}}
 	}
 	// is the injected error one whose text really carries the client address?
@@ -213,8 +227,27 @@ func c17Run(e *aEnv, h *c17Hook, c c17Case) c17Out {
 		}
 	}
 	e.cov.Arm(0, aPayload(9, reply, "c17reply"))
-	ok, pan, _ := e.aRunHandler(conn, aPhantom(0, false), 40*time.Second)
-	if found && c.Scenario != "found-covert-refused" {
+	var hconn net.Conn = conn
+	if c.Scenario == "found-proxyheader-covert-reset" {
+		// the covert resets the connection at once; hold the RemoteAddr call Proxy makes between the
+		// dial and the header write until that has happened, so that the header write fails
+		e.cov.ArmReset(true)
+		defer e.cov.ArmReset(false)
+		calls := 0
+		hconn = c17HookConn{Conn: conn, hook: func() {
+			calls++
+			if calls < 2 { // the handler's own early look at the address
+				return
+			}
+			deadline := time.Now().Add(300 * time.Millisecond)
+			for time.Now().Before(deadline) && e.cov.Resets() == 0 {
+				time.Sleep(200 * time.Microsecond)
+			}
+			time.Sleep(3 * time.Millisecond) // let the RST arrive
+		}}
+	}
+	ok, pan, _ := e.aRunHandler(hconn, aPhantom(0, false), 40*time.Second)
+	if found && c.Scenario != "found-covert-refused" && c.Scenario != "found-proxyheader-covert-reset" {
 		// the relay closes the source side asynchronously
 		conn.WaitClosed(5 * time.Second)
 	}
